@@ -1,7 +1,9 @@
 package trzsz
 
 import (
+	"bytes"
 	"fmt"
+	"math/rand"
 	"os"
 	"path/filepath"
 	"sort"
@@ -326,12 +328,71 @@ func vScenarioC01(rc *runCtx) {
 	}
 	rc.res.ClassKey += fmt.Sprintf(" via%d", o.uploadVia)
 
+	// a transfer handed to the background (-f) gives the terminal back at once: while it is still running, what the
+	// shell prints reaches the terminal and what is typed reaches the shell
+	bgProbe := cfg.fork && tp.Bool("c01.bgprobe", 600)
+	if bgProbe {
+		// long enough to still be running when the probe is made
+		big := make([]byte, 400000+tp.Draw("c01.bgbig", 400000))
+		rand.New(rand.NewSource(int64(tp.Draw("c01.bgseed", 1<<30)))).Read(big)
+		bp := filepath.Join(filepath.Dir(o.srcPaths[0]), "zz-long-background.bin")
+		if st, err := os.Stat(o.srcPaths[0]); err == nil && st.IsDir() {
+			bp = filepath.Join(o.srcPaths[0], "zz-long-background.bin")
+		} else {
+			o.srcPaths = append(o.srcPaths, bp)
+		}
+		vWriteFile(bp, big)
+		o.profile.serial, o.profile.bytesPerMs, o.profile.latPm = true, 100+tp.Draw("c01.bgbw", 200), 0
+	}
 	before := vSnapshot(dst)
 	x := newXferWorld(rc, o)
+	bgResult := ""
+	if bgProbe {
+		rc.w.Go("bgprobe", nil, func() {
+			for i := 0; i < 400; i++ {
+				verifsim.Sleep(50 * time.Millisecond)
+				// (as the server wrote it: whether it reaches the terminal is part of what is being asked)
+				t, _, _ := x.downLast().Snapshot()
+				if bytes.Contains(t, []byte("Switch to transfer in background")) {
+					break
+				}
+				if x.server.Exited {
+					return
+				}
+			}
+			rc.res.Scenario["bg_seen_at"] = rc.w.Now().String()
+			verifsim.Sleep(200 * time.Millisecond)
+			if x.server.Exited {
+				rc.res.Scenario["bg_over_at_probe"] = true
+				return // it is over already: nothing to learn
+			}
+			t0, u0 := x.term.NSentInt(), x.upLast().NSentInt()
+			x.downLast().Write([]byte("user@host:~$ PROBE-OUT-7f3a\r\n"))
+			x.kbd.Write([]byte("echo PROBE-IN-91c2\r"))
+			verifsim.Sleep(time.Second)
+			stillRunning := !x.server.Exited
+			t, _, _ := x.term.Snapshot()
+			u, _, _ := x.upLast().Snapshot()
+			rc.res.Scenario["bg_still_running"] = stillRunning
+			switch {
+			case !stillRunning:
+			case !bytes.Contains(t[t0:], []byte("PROBE-OUT-7f3a")):
+				bgResult = "what the shell printed while the transfer ran in the background did not reach the terminal within a second"
+			case !bytes.Contains(u[u0:], []byte("echo PROBE-IN-91c2")):
+				bgResult = "what was typed while the transfer ran in the background did not reach the shell within a second"
+			default:
+				rc.fault("terminal-probed-while-transfer-in-background")
+			}
+		})
+	}
 	x.start()
 	rc.w.Run(x.finished)
 	rep := x.report()
 	rc.res.Scenario["shell_cmd"] = x.shellCmd
+	if bgResult != "" {
+		rc.violate("transparency", "C01:background-transfer-keeps-the-terminal", "%s (flags %v)", bgResult, o.flags)
+		return
+	}
 	vCheckFidelity(rc, x, rep, before, true)
 	if rc.job.Trace && rc.res.Class != "ok" {
 		x.dumpWire(rc, 1500)
